@@ -38,6 +38,10 @@ type epochPred struct {
 
 type epochInfo struct {
 	preds []epochPred // merge epoch if non-empty
+	// except: keys for which nothing is inherited from preds (havocked by a coarse frame)
+	except func(key string) bool
+	// freshOnly: for excepted keys, cells at refs <= this watermark are still inherited
+	freshAbove string
 }
 
 type obligation struct {
@@ -123,6 +127,7 @@ type fgen struct {
 	localNames    map[string][]ssa.Value
 	quiet         bool
 	ginvs         []*ginv
+	deferGuard    map[*ssa.Defer]string
 }
 
 func (g *fgen) emit(s string) { g.lines = append(g.lines, s) }
@@ -340,6 +345,9 @@ func (g *fgen) read(st *state, key string) string {
 	if !g.declared[name] {
 		g.declare(name, srt)
 		if ei := g.epochs[st.epoch]; ei != nil {
+			if ei.except != nil && ei.except(key) {
+				return name
+			}
 			for _, p := range ei.preds {
 				g.fact(p.guard, fmt.Sprintf("(= %s %s)", name, g.read(p.st, key)))
 			}
@@ -523,6 +531,19 @@ func (g *fgen) havocAll(st *state) {
 	na := g.fresh("alloc", "Int")
 	g.fact("true", fmt.Sprintf("(>= %s %s)", na, st.alloc))
 	st.alloc = na
+}
+
+// havocHeap havocs every real heap cell but keeps the ghost variables.
+func (g *fgen) havocHeap(st *state) {
+	keep := map[string]string{}
+	for name := range g.w.cs.ghosts {
+		k, _ := g.ghostKey(name)
+		keep[k] = g.read(st, k)
+	}
+	g.havocAll(st)
+	for k, v := range keep {
+		st.heap[k] = v
+	}
 }
 
 func (g *fgen) allocRef(st *state) string {
